@@ -61,6 +61,9 @@ mod packet_buffer;
 mod retry;
 mod stateless_reset;
 mod version;
+#[cfg(aws_s2n_quic_verif)]
+#[path = "../verif_hooks/misc.rs"]
+pub mod verif_misc;
 
 // exports
 pub use config::{Config, Context};
